@@ -133,5 +133,153 @@ impl Get for VariableExtructor {
         }
 //@@ endfn
 
+pub mod vstr {
+use vstd::prelude::*;
+#[verifier::external_body]
+pub fn to_string_of(x: &str) -> (r: String) ensures r@ == x@ { unimplemented!() }
+}
+
+// ---- read_getter: the shared expression reader (src/selection.rs). NOT under contract: assumed to be a function of the bytes
+// it is given: which getter it builds and how many bytes it consumes (at least one) depend on the pending bytes only.
+pub uninterp spec fn getter_at(p: Seq<Option<u8>>) -> Option<(Rc<dyn Get>, int)>;
+#[verifier::external_body]
+pub fn read_getter<R: Read>(reader: &mut Reader<R>) -> (r: Result<Rc<dyn Get>>)
+    requires old(reader).wf(), old(reader).room(),
+    ensures final(reader).wf(), final(reader).room(),
+        r is Ok ==> (getter_at(old(reader).pending()) matches Some(gn) && gn.0 == r->Ok_0 && 1 <= gn.1 <= old(reader).pending().len()
+            && final(reader).pending() =~= old(reader).pending().subrange(gn.1, old(reader).pending().len() as int)),
+{ unimplemented!() }
+
+pub open spec fn text_pending(t: Seq<char>) -> Seq<Option<u8>> { Seq::new(str_bytes(t).len(), |i: int| Some(str_bytes(t)[i])) }
+// the whole option text is: white space, one expression, white space
+pub open spec fn whole_text_getter(t: Seq<char>) -> Option<Rc<dyn Get>> {
+    let p = text_pending(t);
+    let w = ws_run(p) as int;
+    match getter_at(p.subrange(w, p.len() as int)) {
+        Some(gn) => if ws_run(p.subrange(w + gn.1, p.len() as int)) == p.len() - (w + gn.1) { Some(gn.0) } else { None },
+        None => None,
+    }
+}
+
+pub mod filter_m {
+use vstd::prelude::*;
+use std::rc::Rc;
+use std::str::FromStr;
+use super::*;
+use std::result::Result;
+//@@ item src/filter.rs :: struct Filter
+//@@ enditem
+impl Filter { pub closed spec fn g(&self) -> Rc<dyn Get> { self.filter } }
+
+impl FromStr for Filter {
+    type Err = SelectionParseError;
+//@@ fn expr.filter.from_str = src/filter.rs :: impl FromStr for Filter :: fn from_str
+//@@ safety C18 C13 C05
+//@@ ret r
+//@@ rewrite try_io str_to_string
+//@@ header
+        ensures
+            // the filter is exactly the getter the shared expression reader builds from the option text (C13.shared), and
+            // anything but white space after the expression is an error (C18.eof)
+            r is Ok ==> whole_text_getter(s@) == Some(r->Ok_0.g()), // @obl EXPR.filter.whole_text : C18 C13
+//@@ after "let mut reader = from_string(&source);"
+        let ghost p = text_pending(s@);
+        let ghost w = ws_run(p) as int;
+        proof { assert(reader.pending() =~= p); }
+//@@ after#1 "reader.eat_whitespace()?;"
+        proof { assert(reader.pending() =~= p.subrange(w, p.len() as int)); }
+//@@ after "let filter = read_getter(&mut reader)?;"
+        let ghost gn = getter_at(p.subrange(w, p.len() as int))->0;
+        proof { assert(reader.pending() =~= p.subrange(w + gn.1, p.len() as int)); }
+//@@ before "Ok(Filter { filter })"
+        proof {
+            assert(reader.pending().len() == 0);
+            assert(ws_run(p.subrange(w + gn.1, p.len() as int)) == p.len() - (w + gn.1));
+        }
+//@@ endfn
+}
+}
+
+pub mod splitter_m {
+use vstd::prelude::*;
+use std::rc::Rc;
+use std::str::FromStr;
+use super::*;
+use std::result::Result;
+//@@ item src/splitter.rs :: struct Splitter
+//@@ enditem
+impl Splitter { pub closed spec fn g(&self) -> Rc<dyn Get> { self.split_by } }
+
+impl FromStr for Splitter {
+    type Err = SelectionParseError;
+//@@ fn expr.splitter.from_str = src/splitter.rs :: impl FromStr for Splitter :: fn from_str
+//@@ safety C18 C13 C05
+//@@ ret r
+//@@ rewrite try_io str_to_string
+//@@ header
+        ensures
+            // the filter is exactly the getter the shared expression reader builds from the option text (C13.shared), and
+            // anything but white space after the expression is an error (C18.eof)
+            r is Ok ==> whole_text_getter(s@) == Some(r->Ok_0.g()), // @obl EXPR.splitter.whole_text : C18 C13
+//@@ after "let mut reader = from_string(&source);"
+        let ghost p = text_pending(s@);
+        let ghost w = ws_run(p) as int;
+        proof { assert(reader.pending() =~= p); }
+//@@ after#1 "reader.eat_whitespace()?;"
+        proof { assert(reader.pending() =~= p.subrange(w, p.len() as int)); }
+//@@ after "let split_by = read_getter(&mut reader)?;"
+        let ghost gn = getter_at(p.subrange(w, p.len() as int))->0;
+        proof { assert(reader.pending() =~= p.subrange(w + gn.1, p.len() as int)); }
+//@@ before "Ok(Splitter { split_by })"
+        proof {
+            assert(reader.pending().len() == 0);
+            assert(ws_run(p.subrange(w + gn.1, p.len() as int)) == p.len() - (w + gn.1));
+        }
+//@@ endfn
+}
+}
+
+pub mod grouper_m {
+use vstd::prelude::*;
+use std::rc::Rc;
+use std::str::FromStr;
+use super::*;
+use std::result::Result;
+//@@ item src/grouper.rs :: struct Grouper
+//@@ enditem
+impl Grouper { pub closed spec fn g(&self) -> Rc<dyn Get> { self.group_by } }
+
+impl FromStr for Grouper {
+    type Err = SelectionParseError;
+//@@ fn expr.grouper.from_str = src/grouper.rs :: impl FromStr for Grouper :: fn from_str
+//@@ safety C18 C13 C05
+//@@ ret r
+//@@ rewrite try_io str_to_string
+//@@ header
+        ensures
+            // the filter is exactly the getter the shared expression reader builds from the option text (C13.shared), and
+            // anything but white space after the expression is an error (C18.eof)
+            r is Ok ==> whole_text_getter(s@) == Some(r->Ok_0.g()), // @obl EXPR.grouper.whole_text : C18 C13
+//@@ after "let mut reader = from_string(&source);"
+        let ghost p = text_pending(s@);
+        let ghost w = ws_run(p) as int;
+        proof { assert(reader.pending() =~= p); }
+//@@ after#1 "reader.eat_whitespace()?;"
+        proof { assert(reader.pending() =~= p.subrange(w, p.len() as int)); }
+//@@ after "let group_by = read_getter(&mut reader)?;"
+        let ghost gn = getter_at(p.subrange(w, p.len() as int))->0;
+        proof { assert(reader.pending() =~= p.subrange(w + gn.1, p.len() as int)); }
+//@@ before "Ok(Grouper { group_by })"
+        proof {
+            assert(reader.pending().len() == 0);
+            assert(ws_run(p.subrange(w + gn.1, p.len() as int)) == p.len() - (w + gn.1));
+        }
+//@@ endfn
+}
+}
+
+
+// FunctionDefinitions::create (arity check): out of Verus' reach — the struct holds a function pointer (`Factory`), which Verus rejects.
+
 } // verus!
 fn main() {}
